@@ -123,6 +123,9 @@ const OTHERS: &[Item] = &[
     it("(|x| l.clear())", PRE_L, Ty::Func, false),
     it("(|x| size l)", PRE_L, Ty::Func, false),
     it("(|x| l.pop())", PRE_L, Ty::Func, false),
+    it("(|x| l.pop() != 'zz')", PRE_L, Ty::Func, false),
+    it("(|x| l.push(x) != 'zz')", PRE_L, Ty::Func, false),
+    it("(|k, v| m.clear() != 'zz')", PRE_M, Ty::Func, false),
     it("(|k, v| m.insert(k, v))", PRE_M, Ty::Func, false),
     it("(|x| m.clear())", PRE_M, Ty::Func, false),
     it("(|x| m.remove('a'))", PRE_M, Ty::Func, false),
@@ -600,7 +603,7 @@ fn corpus_sources() -> Vec<(String, String)> {
 fn token_ranges(src: &str) -> Vec<(usize, usize)> {
     let mut out = vec![];
     let mut end = 0;
-    let r = kvh::catch(|| {
+    let r = guarded("lex", || {
         let mut v = vec![];
         for t in koto_lexer::Lexer::new(src) {
             v.push((t.source_bytes.start, t.source_bytes.end, t.token == koto_lexer::Token::Error));
